@@ -246,36 +246,22 @@ void TensorSet(tensor* t, double val)
 void TensorCopy(tensor* asrc, tensor** adst)
 {
   size_t i, j, k;
-  if((*adst)->m == NULL){
-    (*adst)->order = asrc->order;
-
-    (*adst)->m = xmalloc(sizeof(matrix*)*asrc->order);
-
-    for(k = 0; k < asrc->order; k++){
-      NewMatrix(&((*adst)->m[k]), asrc->m[k]->row, asrc->m[k]->col);
-    }
+  if(asrc == (*adst)){
+    return;
   }
-  else{
-    if(asrc->order != (*adst)->order){
-      /* resize  the order */
-      (*adst)->m = xrealloc((*adst)->m, sizeof(tensor*)*asrc->order);
+
+  if((*adst)->m != NULL){
+    /* release whatever the destination holds: order and layer shapes may differ from the source */
+    for(k = 0; k < (*adst)->order; k++){
+      DelMatrix(&((*adst)->m[k]));
     }
+    xfree((*adst)->m);
+  }
 
-    /*chek and resize the matrix for each order if is necessary */
-    for(k = 0; k < asrc->order; k++){
-      if(asrc->m[k]->row != (*adst)->m[k]->row || asrc->m[k]->col != (*adst)->m[k]->col){
-
-        (*adst)->m[k]->row = asrc->m[k]->row;
-        (*adst)->m[k]->col = asrc->m[k]->col;
-
-        (*adst)->m[k]->data = xrealloc((*adst)->m[k]->data, sizeof(double*)*asrc->m[k]->row);
-
-        for(i = 0; i < asrc->m[k]->row; i++){
-          (*adst)->m[k]->data[i] = xrealloc((*adst)->m[k]->data[i], sizeof(double)*asrc->m[k]->col);
-        }
-      }
-    }
-
+  (*adst)->order = asrc->order;
+  (*adst)->m = xmalloc(sizeof(matrix*)*asrc->order);
+  for(k = 0; k < asrc->order; k++){
+    NewMatrix(&((*adst)->m[k]), asrc->m[k]->row, asrc->m[k]->col);
   }
 
   /*copy the data...*/
